@@ -234,7 +234,7 @@ def build_driver():
 
 
 # ----------------------------------------------------------------------------- executors
-def _run_lines(binary, cmd, lines, timeout=1800, shards=NPROC, ulimit_v=None):
+def _run_lines(binary, cmd, lines, timeout=1800, shards=NPROC, ulimit_v=None, stack_kb=None):
     """Feed `lines` to `binary cmd` over several processes, keep order."""
     if not lines:
         return []
@@ -243,7 +243,7 @@ def _run_lines(binary, cmd, lines, timeout=1800, shards=NPROC, ulimit_v=None):
     import threading
     outs = [None] * shards
     # every process is memory-limited: a runaway allocation must end as a CRASH of that one case, not take the machine down
-    pre = "ulimit -s unlimited 2>/dev/null; ulimit -v %d; " % (ulimit_v or 12000000)
+    pre = "ulimit -s %s 2>/dev/null; ulimit -v %d; " % (stack_kb or "unlimited", ulimit_v or 12000000)
 
     def work(i):
         pending = list(chunks[i])
